@@ -49,9 +49,21 @@ def run(ctx, model_ok):
     ctx.cov.setdefault("evaluations", ost["c02_rows"])
     ctx.cov.setdefault("distinct_nontrivial", ost["c02_rows"])
     ctx.cov.setdefault("samples", [ost])
-    ctx.cov["not_shown"] = ["that the masks the wrappers compute are the geometric inside predicate of Cuboid/Cylinder/Segment/TriangularMesh "
-                            "(proved for Sphere and for the Cylinder: `cylinder_j_is_indicator`; Tetrahedron: the barycentric test is modelled and shown order-independent, "
-                            "J/M and B branches use the same set; Cuboid/Segment by the oracle at stratified observers)",
+    if ctx.driver_ok:
+        # excitation masks of the wrappers (c05wrap): per wrapper kind six rows p, -p, signed zeros, q, a p + b q, +0 in ONE real call, every row against the port
+        # (incl. the Dipole at its own position); run last so that the random sequence of everything above is unchanged
+        st = kern_family.run_stream(ctx, ctx.scale(44, 2200), only=["exccancel"])
+        st.pop("samples", None)
+        ctx.cov["correspondence_exccancel"] = {"rows": st["rows"], "disagreements": st["disagreements"], **st["exccancel"]}
+        ctx.cov["traces_validated_against_impl"] = ctx.cov.get("traces_validated_against_impl", 0) + st["rows"]
+    ctx.cov["not_shown"] = ["masks = geometry, all at WRAPPER level (statements about bhjmSphere / bhjmCylinder / bhjmCuboid / bhjmTetra / bhjmCylSeg .J): proved for Sphere, Cylinder "
+                            "(`cylinder_j_is_indicator`: closed cylinder, d > 0), Cuboid (`cuboid_j_is_indicator`: open box inflated by the relative 1e-15), Tetrahedron (`tetra_j_is_indicator`: "
+                            "convex hull, det != 0) and since c05wrap CylinderSegment (`cylseg_j_is_indicator`: J = polarization on the OPEN segment r1 < rho < r2, |z| < h/2, azimuth in (phi1, phi2) "
+                            "modulo full turns and 0 outside, raw inputs in any unit, angle ranges anywhere (the code's shift by full turns included), for observers OFF the tolerance band of the six "
+                            "surface tests -- |rho - r_i|/r2 > 1e-12 (1 + r_i/r2), |z -+ h/2|/r2 > 1e-12 (1 + h/(2 r2)), azimuth farther than 1e-12 (1 + 2 pi) from every full-turn copy of the "
+                            "bounding half-planes; `cylseg_masks_are_geometric_off_band` is the same on the normalised row with the code's own modulo test). NOT shown: inside the band (there the "
+                            "surface masks may set J = 0 up to 1e-12 relative inside the body, by design; the band hypothesis on the azimuth is the geometric sufficient condition, not the code's "
+                            "exact modulo test); r2 = 0; TriangularMesh (ray test is not the geometric predicate: witness below)",
                             "CylinderSegment: `cylseg_consistent` covers the whole ported BHJM_cylinder_segment (translated 26-case core, masks, angle normalisation) with ellipkinc/ellipeinc/el3_angle as opaque functions; "
                             "rows with an unhandled case id (111, 114, 121, 131) are NaN in the code and `none` in the model; the 360-degree branch of the internal wrapper is the Cylinder port (Cylinder, Triangle, Tetrahedron, Circle, "
                             "Sphere, Dipole and TriangularMesh with its ray-casting inside test: shown for the full ported function; `cylinder_is_wrapCylinder` ties the ported "
@@ -62,9 +74,10 @@ def run(ctx, model_ok):
                             "full mu0_single: false on this tree (known finding)",
                             "Cuboid: J = polarization on the OPEN box inflated by the relative 1e-15 (cuboid_j_is_indicator), not on the closed body; Tetrahedron: point_inside = convex hull only for "
                             "det != 0 (tetraInside_iff_hull; a flat tetrahedron has no interior since repo fix 657dea6); "
-                            "CylinderSegment: no geometric predicate; no theorem that bhjmCylSeg returns a value (cylseg_consistent / cylseg_internal_consistent are conditional on `some`; "
+                            "CylinderSegment: geometric predicate off the tolerance band only (cylseg_j_is_indicator); no theorem that bhjmCylSeg returns a value (cylseg_consistent / cylseg_internal_consistent are conditional on `some`; "
                             "Circle and Cylinder are unconditional via Props/C15: circle_consistent_total, cylinder_consistent_total)",
-                            "Dipole at its own position: no r = 0 branch in the model; dipole_consistent at x = 0 is about Lean's x/0 = 0",
+                            "Dipole at its own position: `bhjmDipole` has no r = 0 branch, dipole_consistent at x = 0 is about Lean's x/0 = 0; the r == 0 row is modelled separately since c05wrap "
+                            "(Model/DipoleSing.lean, values in {-inf, 0, +inf}; B and H carry the same value there, J = M = 0, so B = mu0 H + J holds in the extended sense inf = mu0 inf; not stated as a theorem)",
                             "in_out: modelled as coded (Model/InOut.lean) — only BHJM_magnet_tetrahedron and BHJM_magnet_trimesh receive the keyword (regenerated table of signatures), for the other four "
                             "magnet classes getBH_level1 removes it, so 'inside' does NOT make J the polarization everywhere for Cuboid / Cylinder / CylinderSegment / Sphere (witness "
                             "cuboid_inside_override_is_ignored; truthful overrides change nothing: *_inout_truthful); the value of in_out is validated nowhere (a misspelt value means 'auto' for a Tetrahedron, "
